@@ -21,7 +21,8 @@ import re
 import z3
 
 from mir import parse_body, split_functions, Unsupported, _matching
-from symex import Executor, State, Outcome, I, B, UNIT
+from symex import Executor, State, Outcome, I, B, UNIT, SOLVER_STATS
+import time
 
 OBSERVING = ("pop", "split_and_push", "is_closed")  # (for reporting only)
 
@@ -377,7 +378,10 @@ def _check(base, *f, timeout_ms=60000):
     s.set("timeout", timeout_ms)
     s.add(*base)
     s.add(*f)
+    _t = time.time()
     r = s.check()
+    SOLVER_STATS["time"] += time.time() - _t
+    SOLVER_STATS["queries"] += 1
     return r, (s.model() if r == z3.sat else None)
 
 
